@@ -84,7 +84,15 @@ def caterpillar(rng, n, sleaves, fams):
     return o
 
 
-def rand_case(rng, max_o, max_s, max_f, chain=0.25):
+def _leaves(o):
+    return [o] if isinstance(o, dict) else _leaves(o[0]) + _leaves(o[1])
+
+
+def _internal(o):
+    return [] if isinstance(o, dict) else [o] + _internal(o[0]) + _internal(o[1])
+
+
+def rand_case(rng, max_o, max_s, max_f, chain=0.25, clade=0.3):
     S = R.rand_shape(rng, rng.randint(1, max_s))
     nf = rng.randint(1, max_f)
     fams = sorted(rng.sample(range(1, 8), nf))
@@ -93,6 +101,19 @@ def rand_case(rng, max_o, max_s, max_f, chain=0.25):
     else:
         O = R.rand_otree(rng, rng.randint(2, max_o), R.shape_leaves(S), fams=fams)
     c = dict(rng.choice(GRID)) if rng.random() < 0.6 else R.rand_costs(rng)
+    if rng.random() < clade:
+        # families gained inside the tree: a fresh family on some leaves below a random internal node (this is what
+        # makes internal nodes gain families and INHERIT them further down), with losses dearer than transfers
+        ints = _internal(O)
+        if ints:
+            for f in (8, 9)[:rng.randint(1, 2)]:
+                ls = _leaves(rng.choice(ints))
+                for l in rng.sample(ls, rng.randint(2, len(ls))):
+                    l["syn"] = sorted(set(l["syn"]) | {f})
+        if rng.random() < 0.6:
+            c2 = {"spe": 0, "dup": rng.randint(1, 4), "hgt": rng.randint(0, 2), "floss": rng.randint(1, 4), "sloss": rng.randint(1, 4)}
+            if R.coherent(c2):
+                c = c2
     case = {"S": S, "O": O, "costs": c}
     if rng.random() < 0.25:   # same input object solved before under other costs (see recon.primed)
         case["prime"] = R.rand_costs(rng, coherent_only=False)
@@ -270,3 +291,11 @@ def search(ctx):
             return Finding("search", case, r, "(specification oracle)", False, why)
     ctx.notes.append(f"failing-input search: {n} fresh inputs, none violates the property")
     return None
+
+
+def replay_case(payload):
+    """search / spec_sample findings: the implementation's answer judged by the specification oracle"""
+    case = payload["case"]
+    r = impl(case)
+    ok, why = oracle(case, r)
+    return ok, why, r
